@@ -13,7 +13,8 @@ import os, re, json, stat
 from concurrent.futures import ThreadPoolExecutor
 from . import common as C, repo as R
 
-FLAGS_AS_IS = "00000"    # fixed_P7 fixed_P8 fixed_mv_absent fixed_P45 fixed_P47
+FLAGS_AS_IS = "000000"   # fixed_P7 fixed_P8 fixed_mv_absent fixed_P45 fixed_P47 fixed_P3
+FLAG_NAMES = ("fixed_P7", "fixed_P8", "fixed_mv_absent", "fixed_P45", "fixed_P47", "fixed_P3")
 
 
 def flags_from_source():
@@ -24,16 +25,27 @@ def flags_from_source():
             return open(os.path.join(C.REPO, rel)).read()
         except OSError:
             return ""
-    un, mv = src("file/src/untrack/mod.rs"), src("file/src/mv/mod.rs")
+    un, mv, cp, cm = src("file/src/untrack/mod.rs"), src("file/src/mv/mod.rs"), src("file/src/copy/mod.rs"), src("file/src/common/mod.rs")
     p7 = "is_hardlink_to" in un
     p8 = "symlink_metadata().unwrap()" not in un and "all_content_digests[xe]" not in un
     m = re.search(r"\(RecheckMethod::Copy, RecheckMethod::Copy\) => \{(.*?)\n                \}", mv, re.S)
     mva = bool(m and re.search(r"!\s*source_path\.exists\(\)", m.group(1)))
-    # the pre-check of the P45 fix: cmd_move looks up the destination's cache path before it changes any record
-    p45 = bool(re.search(r"XvcCachePath::new\(dest_path, cd\)", mv)) and "is not in the cache" in mv
+    # the fix of P3: a function in common/mod.rs that copies a cache file to the cache path of another workspace path
+    # (two XvcCachePath::new of one digest, fs::copy), called by cmd_copy and by cmd_move before the first store is
+    # written (with_r11store_mut / with_store_mut); the pre-check asks for the content at either cache path
+    fn = re.search(r"pub fn (\w+)\(\s*xvc_root: &XvcRoot,\s*source_path: &XvcPath,\s*dest_path: &XvcPath,\s*content_digest: &ContentDigest,\s*\) -> Result<\(\)> \{(.*?)\n\}\n", cm, re.S)
+    share = fn.group(1) if fn and fn.group(2).count("XvcCachePath::new(") >= 2 and "fs::copy(" in fn.group(2) else None
+    def before_records(text, call, first_write):
+        i, j = text.find(call + "("), text.find(first_write)
+        return 0 <= i < j
+    p3 = bool(share) and before_records(cp[cp.find("pub fn cmd_copy"):], share, "with_r11store_mut(") \
+        and before_records(mv[mv.find("pub fn cmd_move"):], share, "with_store_mut(")
+    # the pre-check of the P45 fix: cmd_move looks up the cache path of the destination before it changes any record
+    # (since the fix of P3 through the availability function, which looks at the cache paths of both names)
+    p45 = "is not in the cache" in mv and (bool(re.search(r"XvcCachePath::new\(dest_path, cd\)", mv)) or p3)
     # the fix of P47: untrack skips a link whose cache file is gone
     p47 = "its content is not in the cache" in un
-    return "".join("1" if b else "0" for b in (p7, p8, mva, p45, p47))
+    return "".join("1" if b else "0" for b in (p7, p8, mva, p45, p47, p3))
 MINE = ("copy", "move", "remove", "untrack")
 
 TRUSTED = [
@@ -41,9 +53,9 @@ TRUSTED = [
     "axioms: none (Print Assumptions: Closed under the global context)",
     "extraction: ExtrOcamlBasic only; ocamlfind ocamlopt 4.13.1; coq/extract/common.ml + repoext_driver.ml (parsing/printing; its core part is a textual copy of repo_driver.ml)",
     "correspondence: vlib/repo.py + vlib/repoext.py (scenario runner on the hook-instrumented xvc binary built from /repo, observer of workspace / cache / store event logs, canonicaliser); tools/blake3_ref.py and Python hashlib as independent hash implementations",
-    "modelled, not verified: file/src/{copy,mv,remove,untrack}/mod.rs, file/src/common/mod.rs (filter_targets_from_store, filter_paths_by_globs, build_glob_matcher without its is_dir test, cache_paths_for_xvc_paths, recheck_from_cache), file/src/recheck/mod.rs::make_recheck_handler, core/src/types/xvcpath.rs (XvcCachePath::new/remove, XvcPath::join/join_file_name/parents) as Repo/Ext.v over Repo/Model.v (track / carry-in / recheck, the file system with inodes) and Glob/Match.v (fast-glob); hash functions are ideal; --only-version prefixes are given to the model as the set of digests they match; the component stores are seen through their loaded maps (justified by C08); commands run from the repository root (C18 is a separate property); .gitignore handling, --from-storage and --restore-versions are not in the model (the real-run oracles still apply to --restore-versions runs)",
+    "modelled, not verified: file/src/{copy,mv,remove,untrack}/mod.rs, file/src/common/mod.rs (filter_targets_from_store, filter_paths_by_globs, build_glob_matcher without its is_dir test, cache_paths_for_xvc_paths, recheck_from_cache; with the repair of P3 in the tree: cache_file_available_for_path, copy_cache_file_for_path = Ext.available / Ext.share_object, whose temporary file is not modelled), file/src/recheck/mod.rs::make_recheck_handler, core/src/types/xvcpath.rs (XvcCachePath::new/remove, XvcPath::join/join_file_name/parents) as Repo/Ext.v over Repo/Model.v (track / carry-in / recheck, the file system with inodes) and Glob/Match.v (fast-glob); hash functions are ideal; --only-version prefixes are given to the model as the set of digests they match; the component stores are seen through their loaded maps (justified by C08); commands run from the repository root (C18 is a separate property); .gitignore handling, --from-storage and --restore-versions are not in the model (the real-run oracles still apply to --restore-versions runs)",
     "reachability theorems (Repo/ExtReach.v) rest on INV of Repo/Inv.v (b-repo-core) and its preservation by track / carry-in / recheck outside that file's monitor `unclean`; the extracted predicate ExtReach.xclean is evaluated on every generated history and the count of items inside the theorems' domain is reported in the distribution",
-    "the model switches fixed_P7 / fixed_P8 / fixed_mv_absent are read from the text of file/src/untrack/mod.rs and file/src/mv/mod.rs (presence of the repaired constructs); a wrong reading shows up as a correspondence failure",
+    "the model switches fixed_P7 / fixed_P8 / fixed_mv_absent / fixed_P45 / fixed_P47 / fixed_P3 are read from the text of file/src/{untrack,mv,copy,common}/mod.rs (presence of the repaired constructs); a wrong reading shows up as a correspondence failure (the corpus witnesses of each class run first)",
     "the visiting order of the targets of one command (HashMap iteration) is a parameter of the model; it only matters when a command panics half-way: on such items the workspace part of multi-target observations is not compared",
     "environment assumptions: edits_visible (every user write gets a distinct explicit mtime); POSIX rename/link/symlink/unlink semantics",
 ]
@@ -376,8 +388,10 @@ NEW_FILES = ["n.txt", "d/n.txt", "q/r.txt", "m.txt", "noext2", "k.dat"]
 NEW_DIRS = ["n/", "q/w/", "d/", "z/"]
 
 
-def gen_history(rng, focus):
-    """focus 'copy' (C19) or 'remove' (C05).  Returns (cfg, items)."""
+def gen_history(rng, focus, fixed_p3=False):
+    """focus 'copy' (C19) or 'remove' (C05).  Returns (cfg, items).  fixed_p3: the working tree has the repair of
+    P3, destinations with another extension are no longer a known class: more of them are generated"""
+    pc = (0.40, 0.50, 0.65) if fixed_p3 else (0.50, 0.62, 0.82)
     cfg = {"algo": rng.choice(list(R.ALGOS)) if rng.random() < 0.3 else "b3",
            "method": rng.choice(["copy", "hardlink", "symlink", "reflink"]) if rng.random() < 0.5 else "copy",
            "tob": rng.choice(R.TOBS) if rng.random() < 0.15 else "auto"}
@@ -409,12 +423,12 @@ def gen_history(rng, focus):
         if src.endswith("/") or "*" in src:
             return rng.choice(NEW_DIRS) if r < 0.9 else rng.choice(NEW_FILES)
         ext = R.ext_of(src)
-        if r < 0.50:
+        if r < pc[0]:
             cands = [f for f in NEW_FILES if R.ext_of(f) == ext and f not in tracked]
             return rng.choice(cands) if cands else "copy-of-" + src.replace("/", "-")
-        if r < 0.62:
+        if r < pc[1]:
             return rng.choice(NEW_DIRS)
-        if r < 0.82 and tracked:
+        if r < pc[2] and tracked:
             same = [p for p in tracked if R.ext_of(p) == ext]
             return rng.choice(same or tracked)
         if r < 0.92:
@@ -530,8 +544,8 @@ def run_property(chk, replay, focus, oracle, classify_corr, nontrivial, rule, n_
                         "edits_visible: user writes get distinct explicit modification times"]
     chk.proof()
     flags = flags_from_source()
-    chk.cov["model_switches"] = {"fixed_P7": flags[0] == "1", "fixed_P8": flags[1] == "1", "fixed_mv_absent": flags[2] == "1", "fixed_P45": flags[3] == "1", "fixed_P47": flags[4] == "1",
-                                 "read_from": "file/src/untrack/mod.rs, file/src/mv/mod.rs of the working tree"}
+    chk.cov["model_switches"] = dict({n: flags[i] == "1" for i, n in enumerate(FLAG_NAMES)},
+                                     read_from="file/src/{untrack,mv,copy,common}/mod.rs of the working tree")
     model = C.ensure_model("Repoext", ["Base", "Repo", "Glob"])
     xvc = C.ensure_xvc()
     scs = []
@@ -545,7 +559,7 @@ def run_property(chk, replay, focus, oracle, classify_corr, nontrivial, rule, n_
         ncorpus = len(scs)
         n = n_quick if chk.tier == "quick" else n_thorough
         for i in range(n):
-            cfg, items = gen_history(chk.rng, focus)
+            cfg, items = gen_history(chk.rng, focus, fixed_p3=flags[5] == "1")
             scs.append(Scenario(len(scs), cfg, items))
     t0 = time.time()
     run_scenarios(xvc, scs, threads=10 if chk.tier == "quick" else 14)
